@@ -73,7 +73,7 @@ TInit == l = 0 /\ pool = <<>> /\ dig = <<>> /\ verdict = OK
 Consume(k) == LET e == Trace[k] IN
    /\ l' = k
    /\ IF e.ev = "reset" THEN pool' = <<>> /\ dig' = <<>> /\ verdict' = OK
-      ELSE /\ verdict' = [c11 |-> C11Holds(e), c18 |-> C18Holds(e)]
+      ELSE /\ verdict' = IF "masked" \in DOMAIN e THEN OK ELSE [c11 |-> C11Holds(e), c18 |-> C18Holds(e)]
            /\ pool' = IF e.res.outcome = "new" THEN Append(pool, [kind |-> e.res.kind, abs |-> e.res.abs]) ELSE pool
            /\ dig' = e.dig
 TNext == \/ l = 0 /\ \E k \in {k \in 1..Len(Trace) : Trace[k].ev = "reset"} : Consume(k)
